@@ -80,7 +80,8 @@ def gen(rng, tier, ctx):
         sdk = (rng.choice((None, 14, 21)), rng.choice((None, None, 26, 33)), rng.choice((None, None, 34)))
         cases.append({"package": rng.choice(("com.ex.app", "app", "a.b")), "vcode": rng.choice((1, 7, 2**31 - 1)), "vname": rng.choice(("1.0", "2.3-beta", None)),
                       "perms": perms, "sdk": sdk, "comps": comps, "features": rng.sample(["android.hardware.camera", "android.hardware.type.watch", "glEs", None], rng.randint(0, 3)),
-                      "libs": rng.sample(["org.apache.http.legacy", "com.google.android.maps", None], rng.randint(0, 2)), "ns_on_tags": rng.random() < 0.1})
+                      "libs": rng.sample(["org.apache.http.legacy", "com.google.android.maps", None], rng.randint(0, 2)), "ns_on_tags": rng.random() < 0.1,
+                      "app_label": rng.choice(("App", None, None))})      # without a label get_app_name() goes through the launcher activities
     return cases
 
 
@@ -116,7 +117,7 @@ def render(m):
                 items.append(("el", None, "category" if "category" in x else "action", [a("name", x)], []))
             fl.append(("el", None, "intent-filter", [], items))
         app.append(("el", None, kind, at, fl))
-    kids.append(("el", None, "application", [a("label", "App")], app))
+    kids.append(("el", None, "application", [a("label", m.get("app_label", "App"))] if m.get("app_label", "App") is not None else [], app))
     return [("ns", "android", AND, [("el", None, "manifest", root_attrs, kids)])]
 
 
@@ -153,8 +154,21 @@ def impl(case):
                     a.get_min_sdk_version(), a.get_target_sdk_version(), a.get_max_sdk_version(), a.get_effective_target_sdk_version(),
                     s(a.get_features()), s(a.get_libraries())]
     first = observations()
+    again = observations() == first
+    # the other read-only queries of the class in between (the application name and icon, permission details, ...): asking
+    # them must not change what the manifest queries answer
+    for q in ("get_app_name", "get_app_icon", "get_declared_permissions", "get_declared_permissions_details", "get_details_permissions",
+              "get_requested_aosp_permissions", "get_requested_third_party_permissions", "get_intent_filters_all" , "is_androidtv", "is_wearable",
+              "is_leanback", "get_signature_names", "is_multidex", "get_files", "get_element_list"):
+        try:
+            f = getattr(a, q, None)
+            if f is not None:
+                f() if q not in ("get_element_list",) else None
+        except Exception:
+            pass
+    again = again and observations() == first
     return {"tree": walk(root),
-            "out": first, "again_same": observations() == first,
+            "out": first, "again_same": again,
             "main": a.get_main_activity(), "perm_dups": len(a.get_permissions()) - len(set(a.get_permissions()))}
 
 
